@@ -119,6 +119,10 @@ EXTRA4 = {'C01': ' Round 7: announced lengths with leading zeros.', 'C03': ' Rou
 for _k, _v in EXTRA4.items():
     C[_k]["text"] += _v
 
+EXTRA5 = {'C01': ' Round 8: blanks behind the announced length; tabs beside the coding name.', 'C03': ' Round 8: empty list elements around the chunked coding; blanks behind a length.', 'C06': ' Round 8: the path of the request URL (.gz, .tgz, .zip) plays no part.', 'C07': ' Round 8: extension methods in lower and mixed case; bare LF and CR in multipart text; file names with directories.', 'C10': ' Round 8: an obs-text caller header on every hop.', 'C11': ' Round 8: hosts with a hyphen or underscore in front of the letters of an entry.', 'C12': ' Round 8: reply heads of 15..100 field lines.', 'C13': ' Round 8: bodies cut by the deadline on TLS legs (https origin, https proxy, tunnel) against the TLS lab.', 'C15': ' Round 8: media types over the RFC 7231 grammar (four forms the mime parser refuses are known findings).', 'C16': ' Round 8: unrelated caller headers (Range, TE, If-Range, Cache-Control) next to the compression setting.', 'C17': ' Round 8: short connect timeouts under a far overall timeout; connect_timeout(Duration::MAX).'}
+for _k, _v in EXTRA5.items():
+    C[_k]["text"] += _v
+
 PENDING = {
 }
 all_ids = [f"C{i:02d}" for i in range(1, 20)]
